@@ -55,7 +55,7 @@ def cases(tier, rng):
             add("server", form, s + loc(s, i), "1" if form == "json" else "0")
     for s in ("ws", "wss", "http+tls", "ws+tls", "stdio", "stdio+tls", "unixpacket+tls", "udp4", "dns", "dns+tcp+tls"):
         i += 1
-        add("server", "json", s + loc(s, i), "0", src="undocumented")
+        add("server", "json", s + loc(s, i), "1" if s in ("ws", "wss", "http+tls", "ws+tls") else "0", src="undocumented")
     for s in ("foo", "TCP", "tcp+TLS", "tcp+", "+tls", "tcp+tls+tls", "tcps", "tls+tcp", "http+", "dns+", "udp+tls", ""):
         add("server", "json", s + "://127.0.0.1:0", "1", src="neighbour")
         add("server", "yaml", s + "://127.0.0.1:0", "0", src="neighbour")
@@ -107,6 +107,12 @@ def oracle(case, impl):
                 out.append(("silently-different-address;scheme=" + scheme, "server %r is listening on %r" % (text, bound)))
         if p[0] == "type" and ("+tls" in scheme or scheme in ("https", "wss")) and f.get("secure") == "0":
             out.append(("tls-dropped;scheme=" + scheme, "server %r carries a TLS marker but started without TLS" % text))
+        if "wire" in f:
+            marked = "+tls" in scheme or scheme in ("https", "wss")
+            if marked and f["wire"] != "tls":
+                out.append(("tls-dropped-on-wire;scheme=" + scheme, "server %r carries a TLS marker but its endpoint answers %s on the wire" % (text, f["wire"])))
+            if not marked and f["wire"] == "tls":
+                out.append(("tls-without-marker;scheme=" + scheme, "server %r has no TLS marker but its endpoint speaks TLS" % text))
         if t["src"] in ("neighbour", "malformed") and p[0] == "type" and scheme not in IMPL_SERVER:
             out.append(("unknown-accepted;pos=server", "unknown or malformed server address %r was accepted as %s" % (text, f.get("type"))))
     elif t["pos"] == "channel" and t["form"] != "flag":
@@ -144,7 +150,7 @@ def agree(case, impl, model):
     if model.startswith("model-unspecified"):
         return None
     i = impl.split()
-    for cut in ("bound", "host", "name"):
+    for cut in ("wire", "bound", "host", "name"):
         if cut in i:
             i = i[:i.index(cut)]
     if i[:1] == ["type"] and len(i) >= 2 and "starterr" in i:
